@@ -28,6 +28,7 @@ type LoopSpec struct {
 	GhostUpd   []*Clause
 	GhostInit  []*Clause
 	Uses       []*Clause
+	Unroll     int // bounded unrolling with an unwinding assertion instead of an invariant
 }
 
 type GhostDecl struct {
@@ -98,7 +99,7 @@ type Contracts struct {
 var clauseKW = map[string]bool{"prop": true, "requires": true, "ensures": true, "assigns": true, "loop": true,
 	"decreases": true, "ghost": true, "ghost_final": true, "use": true, "reveal": true, "guarantee": true, "define": true, "panics_if": true, "trusted": true, "noinline": true, "pure": true, "allocates": true}
 
-var headRe = regexp.MustCompile(`^func\s*(\(\s*(\w+)\s+(\*?\w+)\s*\))?\s*([\w$.]+)\s*\((.*?)\)\s*(\(.*\)|[\w.*\[\]]+)?\s*$`)
+var headRe = regexp.MustCompile(`^func\s*(\(\s*(\w+)\s+(\*?\w+)\s*\))?\s*([\w$.@]+)\s*\((.*?)\)\s*(\(.*\)|[\w.*\[\]]+)?\s*$`)
 
 func parseNames(list string) []string {
 	// "i, n int, p []byte" -> [i n p]; "out Location" -> [out]
@@ -307,6 +308,11 @@ func loadContracts(files []string, pkgNames []string) (*Contracts, error) {
 						ls.Decreases = cl
 					case "use":
 						ls.Uses = append(ls.Uses, cl)
+					case "unroll":
+						ls.Unroll, _ = strconv.Atoi(strings.TrimSpace(m[3]))
+						cl.Src = "true"
+						lastClause = nil
+						continue
 					case "ghost_update", "ghost_init":
 						gm := regexp.MustCompile(`^(\w+)\s*\(([\w\s,]*)\)\s*:=\s*(.*)$`).FindStringSubmatch(m[3])
 						if gm == nil {
